@@ -10,6 +10,7 @@ package main
 // op 3 prints a digest that does not contain the clock: per accepted step
 //     0 <type whose mark the appended line carries, 9 = none of them> <score before> <score after>
 //       <the addressed article grew by exactly the returned line> <other article files changed> <.DIR offsets changed outside Modified/Recommend of the entry>
+//       <Modified of the entry and the returned mtime are the article file's own modification time>
 // so a replay file can carry the expected digest and `./check C10 --replay` gives a verdict.
 //
 // groups: [op] | [align iplog norec noboo nofast pause] | .DIR | ip | [k nu] | k names (28 bytes) | k article files |
@@ -17,6 +18,7 @@ package main
 
 import (
 	"bytes"
+	"encoding/binary"
 	"os"
 	"path/filepath"
 	"strconv"
@@ -181,9 +183,17 @@ func c10RunBoard(args [][]string, digest bool) []string {
 			}
 		}
 		after := scoreOf(names[a])
+		fmtime := c10FileMtime(artPaths[a])
 		if digest {
 			exact := grew && bytes.Equal(arts1[a][len(arts0[a]):], line)
-			out = append(out, "0", strconv.Itoa(c10MarkType(line)), oi(before), oi(after), obool(exact), strconv.Itoa(others), strconv.Itoa(outside))
+			// the entry's Modified (in the index as it is now) and the returned mtime are the article file's own mtime
+			stamped := false
+			for e := 0; e+128 <= len(dir1); e += 128 {
+				if bytes.Equal(dir1[e:e+28], names[a][:28]) {
+					stamped = int64(int32(binary.LittleEndian.Uint32(dir1[e+28:e+32]))) == fmtime && int64(mtime) == fmtime
+				}
+			}
+			out = append(out, "0", strconv.Itoa(c10MarkType(line)), oi(before), oi(after), obool(exact), strconv.Itoa(others), strconv.Itoa(outside), obool(stamped))
 			continue
 		}
 		out = append(out, "0", strconv.Itoa(len(line)))
@@ -197,7 +207,7 @@ func c10RunBoard(args [][]string, digest bool) []string {
 		}
 		out = append(out, strconv.Itoa(len(diff)/2))
 		out = append(out, diff...)
-		out = append(out, oi(after), strconv.Itoa(others))
+		out = append(out, oi(after), oi(fmtime), strconv.Itoa(others))
 	}
 	return out
 }
